@@ -477,8 +477,6 @@ func (f *Flooder) AnnounceLocalRoutes() {
 	localDomainRoutes := f.routeMgr.GetLocalDomainRoutes()
 	localForwardRoutes := f.routeMgr.GetLocalForwardRoutes()
 
-	seq := f.routeMgr.IncrementSequence()
-
 	// Convert to protocol routes (CIDR + domain + forward + agent presence)
 	routes := make([]protocol.Route, 0, len(localRoutes)+len(localDomainRoutes)+len(localForwardRoutes)+1)
 
@@ -536,31 +534,72 @@ func (f *Flooder) AnnounceLocalRoutes() {
 		displayName = ""
 	}
 
-	// Build advertisement
-	adv := &protocol.RouteAdvertise{
+	// Build advertisement(s). The wire format carries a 1-byte route count and a frame carries
+	// at most MaxPayloadSize bytes, so a large route set is announced as several advertisements,
+	// each with its own sequence number (receivers add routes per advertisement).
+	base := protocol.RouteAdvertise{
 		OriginAgent:       f.localID,
 		OriginDisplayName: displayName,
-		Sequence:          seq,
-		Routes:            routes,
 		Path:              path,    // Keep for backwards compat
 		EncPath:           encPath, // Encrypted path for wire format
 		SeenBy:            []identity.AgentID{f.localID},
 	}
 
-	frame := &protocol.Frame{
-		Type:     protocol.FrameRouteAdvertise,
-		StreamID: protocol.ControlStreamID,
-		Payload:  adv.Encode(),
-	}
+	for _, group := range splitRoutes(routes, advertiseBudget(&base)) {
+		adv := base
+		adv.Sequence = f.routeMgr.IncrementSequence()
+		adv.Routes = group
 
-	// Send to all peers
-	for _, peerID := range f.sender.GetPeerIDs() {
-		if err := f.sender.SendToPeer(peerID, frame); err != nil {
-			f.logger.Debug("failed to announce local routes",
-				logging.KeyPeerID, peerID.ShortString(),
-				logging.KeyError, err)
+		frame := &protocol.Frame{
+			Type:     protocol.FrameRouteAdvertise,
+			StreamID: protocol.ControlStreamID,
+			Payload:  adv.Encode(),
+		}
+
+		// Send to all peers
+		for _, peerID := range f.sender.GetPeerIDs() {
+			if err := f.sender.SendToPeer(peerID, frame); err != nil {
+				f.logger.Debug("failed to announce local routes",
+					logging.KeyPeerID, peerID.ShortString(),
+					logging.KeyError, err)
+			}
 		}
 	}
+}
+
+// maxRoutesPerAdvertise is the largest route count the 1-byte count field of
+// ROUTE_ADVERTISE can carry.
+const maxRoutesPerAdvertise = 255
+
+// advertiseHeadroom is the payload space a locally built ROUTE_ADVERTISE leaves free so that
+// agents forwarding it can extend the path and seen-by lists (32 bytes per hop) without
+// exceeding protocol.MaxPayloadSize.
+const advertiseHeadroom = 1024
+
+// advertiseBudget returns the number of bytes available for encoded routes in an
+// advertisement that carries the non-route fields of base.
+func advertiseBudget(base *protocol.RouteAdvertise) int {
+	empty := *base
+	empty.Routes = nil
+	return protocol.MaxPayloadSize - advertiseHeadroom - len(empty.Encode())
+}
+
+// splitRoutes splits routes, preserving order, into groups that each fit one ROUTE_ADVERTISE:
+// at most maxRoutesPerAdvertise entries and at most budget encoded bytes. A group always takes
+// at least one route, so every route is placed. The result has at least one (possibly empty)
+// group.
+func splitRoutes(routes []protocol.Route, budget int) [][]protocol.Route {
+	var groups [][]protocol.Route
+	start, size := 0, 0
+	for i, r := range routes {
+		n := 4 + len(r.Prefix) // family + prefix length + prefix + metric
+		if i > start && (i-start >= maxRoutesPerAdvertise || size+n > budget) {
+			groups = append(groups, routes[start:i])
+			start, size = i, 0
+		}
+		size += n
+	}
+	return append(groups, routes[start:])
 }
 
 // WithdrawLocalRoutes floods withdrawal of all local routes.
@@ -665,8 +704,6 @@ func (f *Flooder) SendFullTable(peerID identity.AgentID) {
 
 	// Send a separate advertisement for each origin
 	for originAgent := range allOrigins {
-		seq := f.routeMgr.IncrementSequence()
-
 		cidrRoutes := byOrigin[originAgent]
 		agentPresenceRoutes := agentByOrigin[originAgent]
 		forwardOriginRoutes := forwardByOrigin[originAgent]
@@ -733,25 +770,30 @@ func (f *Flooder) SendFullTable(peerID identity.AgentID) {
 			}
 		}
 
-		adv := &protocol.RouteAdvertise{
+		base := protocol.RouteAdvertise{
 			OriginAgent:       originAgent,
 			OriginDisplayName: originDisplayName,
-			Sequence:          seq,
-			Routes:            routes,
 			Path:              path,
 			SeenBy:            []identity.AgentID{f.localID},
 		}
 
-		frame := &protocol.Frame{
-			Type:     protocol.FrameRouteAdvertise,
-			StreamID: protocol.ControlStreamID,
-			Payload:  adv.Encode(),
-		}
+		// One advertisement per group that fits the wire format (see AnnounceLocalRoutes).
+		for _, group := range splitRoutes(routes, advertiseBudget(&base)) {
+			adv := base
+			adv.Sequence = f.routeMgr.IncrementSequence()
+			adv.Routes = group
 
-		if err := f.sender.SendToPeer(peerID, frame); err != nil {
-			f.logger.Debug("failed to send full routing table",
-				logging.KeyPeerID, peerID.ShortString(),
-				logging.KeyError, err)
+			frame := &protocol.Frame{
+				Type:     protocol.FrameRouteAdvertise,
+				StreamID: protocol.ControlStreamID,
+				Payload:  adv.Encode(),
+			}
+
+			if err := f.sender.SendToPeer(peerID, frame); err != nil {
+				f.logger.Debug("failed to send full routing table",
+					logging.KeyPeerID, peerID.ShortString(),
+					logging.KeyError, err)
+			}
 		}
 	}
 }
